@@ -146,7 +146,8 @@ func (node *Node) processUnconfirmedTx(ctx context.Context, tx handlers.TxData) 
 		logger.Info(ctx, "Updating tx state : %s", hash)
 	}
 
-	txState.State.Safe = tx.Safe || newlySafe
+	// A tx that was already reported unsafe is never reported safe again.
+	txState.State.Safe = (tx.Safe || newlySafe) && !txState.State.UnSafe
 	if txState.State.MerkleProof == nil {
 		txState.State.UnconfirmedDepth = 1
 	}
